@@ -102,11 +102,13 @@ func (dec *propertiesDecoder) Decode() (*CandidateNode, error) {
 		dec.finished = true
 		return nil, io.EOF
 	}
-	properties, err := properties.LoadString(buf.String())
+	// values are read as they are written: with expansion on, loading checks every `${..}`
+	// reference for cycles, which is exponential for values that mention each other
+	loader := &properties.Loader{Encoding: properties.UTF8, DisableExpansion: true}
+	properties, err := loader.LoadBytes(buf.Bytes())
 	if err != nil {
 		return nil, err
 	}
-	properties.DisableExpansion = true
 
 	rootMap := &CandidateNode{
 		Kind: MappingNode,
